@@ -279,6 +279,29 @@ fn trace_v<V: Fv>(ctx: &Ctx, nkeys: usize, nsig: usize, rep: &mut Report) {
             Err(_) => return, // C01's business
         };
         let sb = V::sig_to_bytes(&sig);
+        // the signature is a function of (key, message, generator stream): signing again with the
+        // identical stream, while the other worker threads sign with other keys, must give the
+        // identical bytes (process-wide state touched by concurrent signers shows up here)
+        for rpt in 0..8 {
+            let strat2 = if job % 5 == 4 { Strategy::ForceAccept { rate_pm: 200, groups: 2 * n as u64 } } else { Strategy::Honest };
+            let rng2 = ScriptedRng::new(ctx.seed, &format!("c10-trace-{}-{}", V::NAME, job), strat2, progress_budget(n));
+            let again = sign_scripted::<V>(&msg, &k.sk, rng2, false, 0);
+            rep.evaluations += 1;
+            match again.sig {
+                Ok(s2) => {
+                    if V::sig_to_bytes(&s2) != sb {
+                        rep.violation(
+                            "sign:not-a-function-of-key-message-and-randomness",
+                            format!("{}: signing the same message with the same key and the identical generator stream gave different signatures (repetition {}, other threads signing concurrently)", V::NAME, rpt),
+                            json!({"variant": V::NAME, "key_seed": hex(&k.seed), "msg": hex(&msg), "note": "re-run the leg with the recorded seed"}),
+                        );
+                        break;
+                    }
+                    rep.count("signatures_reproduced_under_concurrency", 1);
+                }
+                Err(_) => break,
+            }
+        }
         let calls: Vec<(f64, f64, i64)> = out.events.iter().filter_map(|e| if let Event::SamplerCall { mu, sigma, z, .. } = e { Some((*mu, *sigma, *z as i64)) } else { None }).collect();
         if calls.is_empty() || calls.len() % (2 * n) != 0 {
             rep.inconclusive(format!("{}: {} sampler events for one signature (expected a multiple of {})", V::NAME, calls.len(), 2 * n));
@@ -381,4 +404,5 @@ pub fn trace(ctx: &Ctx, rep: &mut Report) {
     rep.require("attempts_replayed", 50);
     rep.require("attempts_after_a_norm_rejection", 1);
     rep.require("signature_vectors_recomputed_exactly", 20);
+    rep.require("signatures_reproduced_under_concurrency", 200);
 }
